@@ -22,7 +22,7 @@ RULE = ("Cases: initial content as in C11 but without line breaks inside lines (
         "Distinct = distinct case JSON.")
 EXPLANATION = ""
 ASSUMPTIONS = ["line contents contain no line breaks (the statement's domain)", "PYTHONUTF8=1"]
-FLOORS = {"mixed-view-save": (0.11, None), "shifted-file-backed-read": (0.077, None)}
+FLOORS = {"mixed-view-save": (0.08, None), "shifted-file-backed-read": (0.06, None), "same-position-read-around-reverse": (0.008, None)}
 SHARDS = {"quick": 12, "thorough": 14}
 
 OPS = ["get", "insert", "get", "del", "save", "set", "get", "slice", "insert", "save", "get", "del", "append", "extend", "pop", "remove",
@@ -86,12 +86,27 @@ def run_case(case, ctx):
             return
         mutated = False
         shifted = False
+        sparse = case.get("observe") == "sparse"
+        around = {}
+        if sparse:
+            ctx.label("observed-only-through-its-own-reads")
         try:
             with f:
                 if not rec and f.dirty is not False:
                     fail("dirty/true-before-modification", "dirty=%r right after opening" % (f.dirty,))
                 for o in case["ops"]:
                     k = o[0]
+                    # generator coverage only: a single read of position i, a reverse(), and the next read is of position i again
+                    if not sparse:
+                        pass
+                    elif k == "get" and -len(model) <= o[1] < len(model):
+                        if around.get("rev") == o[1] % len(model):
+                            ctx.label("same-position-read-around-reverse")
+                        around = {"pos": o[1] % len(model)}
+                    elif k == "reverse":
+                        around = {"rev": around.get("pos", around.get("rev"))}
+                    elif k in ("slice", "save", "list", "del", "insert", "pop", "remove") or not sparse:
+                        around = {}
 
                     def both(fa, fb, what):
                         ea = eb = None
@@ -212,6 +227,11 @@ def run_case(case, ctx):
                     if len(f) != len(model):
                         fail("%s/len-differs" % k, "len %d vs list %d after %r" % (len(f), len(model), o))
                         raise _Stop()
+                    # a full scan after every operation is itself a sequence of reads and would hide state that only two
+                    # *single* reads around a mutation can expose (a memoised last line, seeded in round 16): a third of the
+                    # histories are observed only through the reads they contain, and in full after the last operation
+                    if sparse and k != "list" and o is not case["ops"][-1]:
+                        continue
                     cur = list(f)
                     if cur != model:
                         fail("%s/content-differs" % k, "after %r the file view is %r, list is %r" % (o, short(cur), short(model)))
@@ -253,11 +273,20 @@ def short(x):
 def strategies(tier):
     big = tier == "thorough"
     line = FG.line_strategy(with_cr=False, with_long=True)
+    # "read position p, do one thing, read position p again" segments between ordinary operations: state that survives from one
+    # single read to the next (round 16) is only visible when nothing else is read in between
+    code = st.integers(0, 2 ** 24 - 1)
+    seg = st.one_of(code.map(lambda c: [dec(c)]),
+                    st.tuples(st.integers(-8, 8), code).map(lambda t: [["get", t[0]], dec(t[1]), ["get", t[0]]]),
+                    st.tuples(st.integers(-8, 8), st.sampled_from(["reverse", "list"])).map(lambda t: [["get", t[0]], ["reverse"], [t[1]] if t[1] == "list" else ["get", t[0]]]))
+    probes = st.lists(seg, min_size=1, max_size=10).map(lambda ss: [o for sg in ss for o in sg])
     case = st.fixed_dictionaries({
         "variant": st.sampled_from([v for v in FG.VARIANTS if v.startswith("Mutable")]),
         "lines": st.one_of(st.lists(line, max_size=2), st.lists(line, min_size=3, max_size=8), st.lists(line, min_size=4, max_size=8)),
         "final_nl": st.booleans(),
-        "ops": st.one_of(codes(0, 6), codes(6, 30), codes(8, 30)).map(lambda cs: [dec(c) for c in cs]),
+        "observe": st.sampled_from(["each", "each", "sparse"]),
+        "ops": st.one_of(codes(0, 6).map(lambda cs: [dec(c) for c in cs]), codes(6, 30).map(lambda cs: [dec(c) for c in cs]),
+                         codes(8, 30).map(lambda cs: [dec(c) for c in cs]), probes),
     })
     return [("edit-histories", case, 600000 if big else 8000)]
 
